@@ -42,7 +42,7 @@ package participle
 //@   ensures p.apply[len(p.apply)-1] != nil && fresh(p.apply[len(p.apply)-1]) && fresh(p.apply)
 //@   ensures p.apply[len(p.apply)-1].tokens == tokens && p.apply[len(p.apply)-1].strct == strct && p.apply[len(p.apply)-1].field == field && p.apply[len(p.apply)-1].fieldValue == fieldValue
 
-//@ func (*parseContext).Accept [C02 C01 C13 C11]
+//@ func (*parseContext).Accept [C02 C01 C13 C11 C08 C10]
 //@   frame-tags C09
 //@   requires branch != nil && p != branch
 //@   ensures errOK(old(p.deepestError)) && errOK(branch.deepestError) ==> errOK(p.deepestError) [C06]
@@ -511,7 +511,7 @@ package participle
 
 // ParseFromLexer: whatever path is taken, the caller's lexer ends up at the position the parse reached
 // (the first token it did not consume), and a parse error still comes with a non-nil AST.
-//@ func (*Parser[G]).ParseFromLexer [C15 C06 C01 C10]
+//@ func (*Parser[G]).ParseFromLexer [C15 C06 C01 C10 C11]
 //@   frame-tags C09
 //@   requires lex != nil && plInv(lex)
 //@   modifies *lex
@@ -519,8 +519,8 @@ package participle
 //@   ensures errOK(result1) [C06]
 //@   ensures @astNonNil result0 != nil [C06]
 //@   requires @assumed forall(k, 0, len(options), options[k] != nil)
-//@   at return 2: assert *lex == ctx.PeekingLexer [C15 C10]
-//@   at return 3: assert *lex == ctx.PeekingLexer [C15 C10]
+//@   at return 2: assert *lex == ctx.PeekingLexer [C15 C10 C11]
+//@   at return 3: assert *lex == ctx.PeekingLexer [C15 C10 C11]
 //@   loop 1 invariant -1 <= rangeindex && rangeindex < len(options)
 //@   loop 1 invariant ctx.PeekingLexer == old(*lex) && ctx.apply == nil && ctx.deepestError == nil && ctx.lookahead == p.useLookahead && ctx.caseInsensitive == p.caseInsensitiveTokens
 //@   loop 1 invariant *lex == old(*lex)
